@@ -13,7 +13,7 @@ EXPLANATION = (
     "- a target for which is_valid is false yields Kind::InvalidModule and is never loaded; (R5) JOIN-AGREE - module::load "
     "and resolve::declare_import derive the imported locator with the same Locator::join(loc, import.module()). "
     "Exactly-once over all graphs as observed behaviour and the url crate's path normalisation are not decided.")
-EXPLANATION += " Further clauses: (R6) COMPLETE - Program::imports selects children by cast only, CycleDetected is constructed only by the failed toposort, the already-loaded arm cannot fail; (R7) LOCATORS - Locator::join delegates to url::Url::join and every Loader::is_valid returns the file system's (or the fixed input's) verdict. The rules follow is_valid/join into closures of module::load. R7 also requires locator_path to convert with url::Url::to_file_path."
+EXPLANATION += " Further clauses: (R6) COMPLETE - Program::imports selects children by cast only, CycleDetected is constructed only by the failed toposort, the already-loaded arm cannot fail; (R7) LOCATORS - Locator::join delegates to url::Url::join and every Loader::is_valid returns the file system's (or the fixed input's) verdict. The rules follow is_valid/join into closures of module::load. R7 also requires locator_path to convert with url::Url::to_file_path. R7 also requires FileSystem::is_valid to follow symbolic links like read_file."
 TECHNIQUE = "static analysis: MIR dominance, must-pass-through and argument-provenance rules on module::load"
 
 L = 'oal_compiler::module::load'
